@@ -82,6 +82,9 @@ def run_registry(desc):
         return {"status": "ok", "counters": {"registry_cases_nothing_to_run": 1}, "nontrivial": False}
     producers = [c for c in cands if rp.role[c] == "producer"]
     failing = set(rng.sample(producers, min(len(producers), 1)) if producers and rng.random() < 0.7 else [])
+    red = [u for u, c in ir.meta.get("redundant_deps", ()) if u in exp.execs]
+    if red and rng.random() < 0.8:
+        failing.add(rng.choice(red))  # the source of an explicit dependency that duplicates an existing path fails
     while len(failing) < min(desc["nfail"], len(cands)):
         failing.add(rng.choice(cands))
     excs = {}
